@@ -169,10 +169,17 @@ func keyValue(r *kit.Rng, s *schema.Node, o GenOpts) string {
 		if s.Type == "int32" {
 			return confusableInts[r.Intn(n)]
 		}
-		return confusableStrs[r.Intn(n)]
+		if s.Type == "string" {
+			return confusableStrs[r.Intn(n)]
+		}
 	}
-	if s.Type == "int32" {
+	switch s.Type {
+	case "int32", "int64", "uint8":
 		return fmt.Sprint(1 + r.Intn(n))
+	case "enum":
+		return s.Enums[r.Intn(len(s.Enums))]
+	case "decimal64":
+		return fmt.Sprintf("%d.50", 1+r.Intn(n))
 	}
 	return "k" + fmt.Sprint(r.Intn(n))
 }
